@@ -280,6 +280,132 @@ def own_sources(ctx):
     return items
 
 
+# ---- growth-boundary inputs ------------------------------------------------------------------------
+# cproc grows its arrays with util.c:arrayadd (realloc, capacity doubling).  Code that keeps a pointer into such an array across
+# an append reads freed memory exactly when the append crosses a growth step -- and only then does the allocator's behaviour
+# (MALLOC_PERTURB_, tcache off, mmap threshold) become visible in the output.  These inputs put every construct that is stored in
+# such an array at every size/position around the growth steps.  The steps are read from util.c, the token size from cc.h.
+def growth_steps():
+    src = open(os.path.join(vlib.REPO, "util.c")).read()
+    m = re.search(r"a->cap\s*=\s*a->cap\s*\?\s*a->cap\s*\*\s*(\d+)\s*:\s*(\d+)", src)
+    factor, first = (int(m.group(1)), int(m.group(2))) if m else (2, 256)
+    steps, c = [], first
+    while c <= 8192:
+        steps.append(c)
+        c *= max(2, factor)
+    return steps
+
+
+def token_size(ctx):
+    probe = ctx.path("c20_tokensize.c")
+    open(probe, "w").write('#include <stdbool.h>\n#include <stddef.h>\n#include <stdio.h>\n#include "util.h"\n#include "cc.h"\n'
+                           'int main(void) { printf("%zu\\n", sizeof(struct token)); return 0; }\n')
+    exe = ctx.path("c20_tokensize")
+    p = subprocess.run(["gcc", "-I", vlib.REPO, "-o", exe, probe], stdout=subprocess.PIPE, stderr=subprocess.PIPE)
+    if p.returncode != 0:
+        return None
+    try:
+        return int(subprocess.run([exe], stdout=subprocess.PIPE).stdout.split()[0])
+    except (ValueError, IndexError):
+        return None
+
+
+def boundary_sizes(elem_sizes, limit=215):
+    out = set()
+    for es in elem_sizes:
+        for cap in growth_steps():
+            for n in (cap // es - 1, cap // es, cap // es + 1):
+                if 0 <= n <= limit:
+                    out.add(n)
+    return sorted(out)
+
+
+def _filler(p):
+    """(prefix of exactly p tokens, suffix) forming leading elements of a `const void *[]` initializer:
+    `0 ,` (2 tokens) and `+0 ,` (3 tokens); a single token is `(` closed by the suffix."""
+    if p == 1:
+        return "(", ")"
+    b = p % 2
+    a = (p - 3 * b) // 2
+    return " ".join(["+0 ,"] * b + ["0 ,"] * a), ""
+
+
+def _macro_at(kind, p):
+    """function-like macro whose replacement list has the construct `kind` as token number p (0-based) + its invocation"""
+    pre, suf = _filler(p)
+    if kind == "str":       # '#' operator at position p
+        return "#define S%d(c, d) %s #c %s\nconst void *s%d[] = { S%d(a < b, 7) };\n" % (p, pre, suf, p, p)
+    if kind == "par":       # parameter name at position p
+        return "#define Q%d(c, d) %s c %s , d\nconst void *q%d[] = { Q%d(0, 0) };\n" % (p, pre, suf, p, p)
+    if kind == "va":        # __VA_ARGS__ at position p
+        return "#define V%d(...) %s __VA_ARGS__ %s\nconst void *v%d[] = { V%d(%s) };\n" % (p, pre, suf, p, p, "0" if p == 1 else "0, 0, 0")
+    if kind == "strva":     # '#' applied to __VA_ARGS__ at position p
+        return "#define W%d(c, ...) %s #__VA_ARGS__ %s , c\nconst void *w%d[] = { W%d(0, x y, z) };\n" % (p, pre, suf, p, p)
+    raise KeyError(kind)
+
+
+def _sized(kind, n):
+    """a translation unit fragment with n elements in one arrayadd/realloc-grown (or map-grown) container"""
+    r = range(1, n + 1)
+    if kind == "params":    # macro parameter array + argument array
+        return ("#define P%d(%s) a%d\nint p%d = P%d(%s);\n" % (n, ", ".join("a%d" % k for k in r), n, n, n, ", ".join(str(k) for k in r)))
+    if kind == "nest":      # context stack: chain of n object-like macros
+        return "#define N%d_0 %d\n" % (n, n) + "".join("#define N%d_%d N%d_%d\n" % (n, k, n, k - 1) for k in r) + "int n%d = N%d_%d;\n" % (n, n, n)
+    if kind == "argtok":    # one macro argument of n tokens, used twice and stringized
+        return "#define A%d(x) x , #x , x\nconst void *a%d[] = { A%d(%s) };\n" % (n, n, n, " ".join(["+"] * (n - 1) + ["0"]))
+    if kind == "strcat":    # n adjacent string literals
+        return "char c%d[] = %s;\n" % (n, " ".join('"%c"' % "abcdefghij"[k % 10] for k in r))
+    if kind == "cases":
+        return "int sw%d(int x) { switch (x) { %s default: return 0; } }\n" % (n, " ".join("case %d: return %d;" % (k * 7, k) for k in r))
+    if kind == "members":
+        return "struct m%d { %s } ; int mm%d = sizeof(struct m%d);\n" % (n, " ".join("char f%d;" % k for k in r), n, n)
+    if kind == "fparams":
+        return ("int fp%d(%s) { return a%d; }\nint cfp%d(void) { return fp%d(%s); }\n"
+                % (n, ", ".join("int a%d" % k for k in r), n, n, n, ", ".join(str(k) for k in r)))
+    if kind == "labels":
+        return "int lb%d(int x) { %s return x; }\n" % (n, " ".join("if (x == %d) goto l%d; l%d: x++;" % (k, (k % n) + 1, k) for k in r))
+    if kind == "init":
+        return "int in%d[] = { %s };\nint lin%d(void) { int v[] = { %s }; return v[%d]; }\n" % (
+            n, ", ".join(str(k) for k in r), n, ", ".join(str(k) for k in r), n - 1)
+    if kind == "decls":
+        return "".join("extern int d%d_%d;\n" % (n, k) for k in r) + "int ld%d(void) { %s return 0; }\n" % (n, " ".join("int v%d = %d;" % (k, k) for k in r))
+    raise KeyError(kind)
+
+
+MACRO_KINDS = ["str", "par", "va", "strva"]
+SIZED_KINDS = ["params", "nest", "argtok", "strcat", "cases", "members", "fparams", "labels", "init", "decls"]
+
+
+def growth_inputs(ctx, add):
+    tsz = token_size(ctx)
+    cand = [8, 16, 24, 32, 40, 48, 64]
+    tok_b = boundary_sizes([tsz] if tsz else cand)
+    any_b = boundary_sizes(sorted(set(cand + ([tsz] if tsz else []))))
+    ctx.cov["growth_inputs"] = {"arrayadd_steps": growth_steps(), "sizeof_token": tsz, "token_boundaries": tok_b}
+    hdr = "int a, b; int x, y, z;\n"
+    sweep = range(0, 112)
+    for kind in MACRO_KINDS:
+        text = hdr + "".join(_macro_at(kind, p) for p in sweep)
+        add("grow:%s:sweep" % kind, text.encode(), "x86_64-sysv", "c")
+        add("grow:%s:sweep:E" % kind, text.encode(), "x86_64-sysv", "E")
+        for p in (tok_b if (ctx.quick and kind != "str") else any_b if not ctx.quick else sorted(set(tok_b) | set(boundary_sizes([tsz or 40], 110)))):
+            if ctx.quick and kind != "str" and p % 2:
+                continue
+            t = (hdr + _macro_at(kind, p)).encode()
+            add("grow:%s:%d" % (kind, p), t, "x86_64-sysv", "c")
+            add("grow:%s:%d:E" % (kind, p), t, "x86_64-sysv", "E")
+    for kind in SIZED_KINDS:
+        ns = [n for n in range(1, 131)] if kind not in ("members", "labels") else list(range(1, 100))
+        text = hdr + "".join(_sized(kind, n) for n in ns)
+        add("grow:%s:sweep" % kind, text.encode(), "x86_64-sysv", "c")
+        if kind in ("params", "nest", "argtok"):
+            add("grow:%s:sweep:E" % kind, text.encode(), "x86_64-sysv", "E")
+        if not ctx.quick:
+            for n in any_b:
+                if 1 <= n <= 130:
+                    add("grow:%s:%d" % (kind, n), (hdr + _sized(kind, n)).encode(), "x86_64-sysv", "E" if kind in ("nest", "argtok") and n % 2 else "c")
+
+
 def make_inputs(ctx):
     """-> list of dict(name, text(bytes), t, m).  Deterministic for a seed."""
     rng = ctx.rng
@@ -307,6 +433,7 @@ def make_inputs(ctx):
         add("err:%d" % k, s.encode("latin-1"), "x86_64-sysv", "c")
         if k % 3 == 0:
             add("err:%d:E" % k, s.encode("latin-1"), "x86_64-sysv", "E")
+    growth_inputs(ctx, add)
     texts = [(n, t.decode("latin-1"), a, m) for n, t, a, m in cor]
     pool = sorted({tok for _, t, _, _ in texts for tok in TOKRE.findall(t) if not tok.isspace() and len(tok) < 40}) + EXTRA_TOKS
     ntrunc, nmut = (60, 260) if ctx.quick else (200, 1200)
